@@ -401,6 +401,7 @@ class Daemon(object):
             request_flags = msg.flags
             request_seq = msg.seq
             request_serializer_id = msg.serializer_id
+            current_context.response_annotations = {}   # never carry over what an earlier (failed or oneway) call left behind
             if msg.flags & protocol.FLAGS_CORR_ID:
                 current_context.correlation_id = uuid.UUID(bytes=msg.corr_id)
             else:
@@ -509,6 +510,7 @@ class Daemon(object):
                     protocol.log_wiredata(log, "daemon wiredata sending", msg)
                 conn.send(msg.data)
         except Exception as xv:
+            current_context.response_annotations = {}   # whatever the failed call set is not for the next reply
             msg = getattr(xv, "pyroMsg", None)
             if msg:
                 request_seq = msg.seq
@@ -1010,6 +1012,7 @@ class _OnewayCallThread(threading.Thread):
 
     def run(self):
         current_context.from_global(self.parent_context)
+        current_context.response_annotations = {}   # a oneway call has no response; don't share the server thread's dict
         super(_OnewayCallThread, self).run()
 
     def _methodcall(self):
